@@ -106,6 +106,13 @@ def exec_case(case):
         return {"v": norm(vs, root, root)}
 
     out["dir"] = {t: cli([t]) for t in case["dirs"]}
+    # the same directory under the traversal / scheduling switches: still a union, over the files the switch leaves in scope
+    out["dir_opts"] = []
+    for d, opts in case.get("dir_opts", []):
+        r = runner.cli([cmd, "--format", "json"] + opts + [d], root)
+        out["runs"] += 1
+        vs = r.violations()
+        out["dir_opts"].append({"dir": d, "opts": opts, "res": {"error": "exit %s: %s" % (r.exit, r.err[-300:])} if vs is None or r.exit not in (0, 1) else {"v": norm(vs, root, root)}})
     for f in srcs:
         out["per_file"][f] = cli([f])
     out["lists"] = [{"targets": t, "res": cli(t)} for t in case["lists"]]
@@ -130,6 +137,13 @@ def under(f, d):
     return d == "." or f == d or f.startswith(d.rstrip("/") + "/")
 
 
+def direct_child(f, d):
+    return os.path.dirname(f) == ("" if d == "." else d.rstrip("/"))
+
+
+OPT_SETS = [["--parallel"], ["--no-recursive"], ["--no-recursive", "--parallel"], ["--parallel", "--no-recursive"], ["--recursive", "--parallel"]]
+
+
 def run(ctx):
     ctx.rule = ("case = (project tree, command): directory run vs per-file runs vs file-list runs vs Linter.lint; distinct non-trivial = "
                 "(command, comparison kind, target) whose reference side has >= 1 violation")
@@ -151,7 +165,12 @@ def run(ctx):
             lists.append(["src/bait_b%d.py" % i, "src/bait_a%d.py" % i])
             lists.append(["tools", "lib"] if any(f.startswith("tools/") for f in srcs) else ["lib", "src/inner"])
             lib_targets = [".", "src", rng.choice(srcs), rng.choice([f for f in srcs if "other" in f])]
-            cases.append({"files": files, "cmd": cmd, "dirs": [".", "src", "lib"], "lists": lists, "lib_targets": lib_targets, "id": "p%d:%s" % (i, cmd), "cfg_pick": len(cases)})
+            dirs = [".", "src", "lib"]
+            dir_opts = [[d, o] for d in dirs + ["tools"] for o in OPT_SETS]
+            if ctx.quick:
+                dir_opts = [[["src", "tools", "lib", "."][(len(cases) + k) % 4], o] for k, o in enumerate(OPT_SETS[:4])]
+            cases.append({"files": files, "cmd": cmd, "dirs": dirs, "lists": lists, "lib_targets": lib_targets, "id": "p%d:%s" % (i, cmd), "cfg_pick": len(cases),
+                          "dir_opts": dir_opts})
     outs = runner.pmap(exec_case, cases, timeout=900)
     for case, o in zip(cases, outs):
         if not o.get("ok"):
@@ -161,7 +180,7 @@ def run(ctx):
         cmd = case["cmd"]
         ctx.evaluations += v["runs"] + len(v["lib"])
         files = case["files"]
-        errs = [x for x in list(v["dir"].values()) + list(v["per_file"].values()) + [l["res"] for l in v["lists"]] if "error" in x]
+        errs = [x for x in list(v["dir"].values()) + list(v["per_file"].values()) + [l["res"] for l in v["lists"]] + [x["res"] for x in v["dir_opts"]] if "error" in x]
         if errs:
             ctx.inconclusive_if(True, "%s: CLI run failed: %s" % (case["id"], errs[0]["error"]))
             continue
@@ -179,6 +198,19 @@ def run(ctx):
                     ctx.discrepancy("dir-vs-union:%s" % cmd, "%s dir %s: only in directory run %r; only in per-file runs %r" % (
                         case["id"], d, list((got_src - exp).elements())[:2], list((exp - got_src).elements())[:2]),
                         {"id": case["id"], "runs": [{"argv": [cmd, "--format", "json", d]}]}, files)
+            for x in v["dir_opts"]:
+                d, opts = x["dir"], x["opts"]
+                got = Counter(map(tuple, x["res"]["v"]))
+                member = direct_child if "--no-recursive" in opts else under
+                exp = sum((per[f] for f in per if member(f, d)), Counter())
+                ctx.count("union_dir_switch_checked")
+                if exp:
+                    ctx.nontrivial([cmd, "dir" + "".join(sorted(opts)), d])
+                got_src = Counter(t for t in got.elements() if t[1] in per)
+                if got_src != exp:
+                    ctx.discrepancy("dir-vs-union:%s:%s" % ("+".join(sorted(o.lstrip("-") for o in opts)), cmd), "%s dir %s %s: only in directory run %r; only in per-file runs of the files in scope %r" % (
+                        case["id"], " ".join(opts), d, list((got_src - exp).elements())[:2], list((exp - got_src).elements())[:2]),
+                        {"id": case["id"], "runs": [{"argv": [cmd, "--format", "json"] + opts + [d]}]}, files)
             for l in v["lists"]:
                 got = Counter(map(tuple, l["res"]["v"]))
                 exp = Counter()
